@@ -126,6 +126,12 @@ func copyShadow(in map[string]*repoShadow) map[string]*repoShadow {
 		for a := range rs.pushed {
 			c.pushed[a] = true
 		}
+		if rs.orphans != nil {
+			c.orphans = map[string]bool{}
+			for a := range rs.orphans {
+				c.orphans[a] = true
+			}
+		}
 		out[k] = c
 	}
 	return out
@@ -606,7 +612,13 @@ func (m *Monitors) served(h *H, what, repo, real string, want []byte, known bool
 		return
 	}
 	if r.Status != 200 {
-		m.flag(h, "C02.readback", fmt.Sprintf("%s: acknowledged item answered %d %s", what, r.Status, r.Code))
+		name := "C02.readback"
+		if rs.orphans[real] {
+			// cause: the manifest had become a child record of an index (no top-level entry of its own) and that index was
+			// deleted by digest; child records live in memory only (F31/F32/F33)
+			name += ".child-of-deleted-index"
+		}
+		m.flag(h, name, fmt.Sprintf("%s: acknowledged item answered %d %s", what, r.Status, r.Code))
 		return
 	}
 	if !head && string(r.raw) != string(want) {
